@@ -4,7 +4,7 @@ from ..rules import algebra, factors, floatmask
 
 def run(ck):
     P = facts.load()
-    ck.not_decided = ('not decided: the rounding of MUL_UN8/DIV_UN8 and saturating adds, the PDF blend-mode formulas, SIMD combiners, fetch/store around the combiner, float-to-unorm quantisation.')
+    ck.not_decided = ('not decided: the rounding inside MUL_UN8/DIV_UN8 and the helper vocabulary (over, in_over, pix_multiply ...), the PDF blend-mode formulas themselves (uninterpreted in C01-R5), fetch/store around the combiner, float-to-unorm quantisation, scaled/rotated fast paths and the fast-path bodies listed in the notes as outside the vocabulary.')
     algebra.r1_slots(ck, P)
     algebra.r2_float_factors(ck, P)
     algebra.r3_table_lengths(ck, P)
